@@ -12,8 +12,10 @@ import (
 	"fmt"
 	mrand "math/rand"
 	"os"
+	"path/filepath"
 	"sort"
 	"strings"
+	"sync"
 	"testing"
 
 	"github.com/nuts-foundation/nuts-node/crypto/hash"
@@ -382,7 +384,103 @@ func TestVerifC19(t *testing.T) {
 			c19RunRaw(o, d, "table-smaller-than-k-with-pure")
 		}
 	}
-	_ = sort.Strings
+	if mode := os.Getenv("VERIF_ORBIT"); mode != "" {
+		c19Orbit(dir, mode, c19Seed())
+	}
+}
+
+// c19Orbit measures the 32-bit hash chain next -> murmur3.SeedSum32(hk, LE32(next)) that bucketIndices walks, for
+// numBuckets = 1024 and k = 6: which start values never produce k distinct buckets (short cycles of the chain), and how many
+// steps the others need.  mode "full": all 2^32 start values; "sample": the six known cycle members + 2^22 random ones.
+func c19Orbit(dir, mode string, seed int64) {
+	const n, k = 1024, 6
+	known := map[uint32]bool{2685067771: true, 3264639879: true, 4101757383: true, 4107318918: true, 1532747441: true, 2381736504: true}
+	steps := func(x uint32, buf []byte) int { // 0 = never (within 200 steps)
+		var seen [k]uint32
+		cnt, st := 0, 0
+		next := x
+		for cnt < k && st < 200 {
+			b := next % n
+			dup := false
+			for i := 0; i < cnt; i++ {
+				if seen[i] == b {
+					dup = true
+				}
+			}
+			if !dup {
+				seen[cnt] = b
+				cnt++
+			}
+			binary.LittleEndian.PutUint32(buf, next)
+			next = murmur3.SeedSum32(ibltHk, buf)
+			st++
+		}
+		if cnt < k {
+			return 0
+		}
+		return st
+	}
+	const workers = 16
+	type res struct {
+		bad      []uint32
+		maxSteps int
+		n        uint64
+	}
+	out := make([]res, workers)
+	var wg sync.WaitGroup
+	for w := 0; w < workers; w++ {
+		wg.Add(1)
+		go func(w int) {
+			defer wg.Done()
+			buf := make([]byte, 4)
+			check := func(x uint32) {
+				s := steps(x, buf)
+				out[w].n++
+				if s == 0 {
+					out[w].bad = append(out[w].bad, x)
+				} else if s > out[w].maxSteps {
+					out[w].maxSteps = s
+				}
+			}
+			if mode == "full" {
+				for x := uint64(w) << 28; x < uint64(w+1)<<28; x++ {
+					check(uint32(x))
+				}
+			} else {
+				r := mrand.New(mrand.NewSource(seed*131 + int64(w)))
+				for i := 0; i < 1<<18; i++ {
+					check(r.Uint32())
+				}
+				if w == 0 {
+					for x := range known {
+						check(x)
+					}
+				}
+			}
+		}(w)
+	}
+	wg.Wait()
+	var bad []uint32
+	maxSteps := 0
+	total := uint64(0)
+	for _, r := range out {
+		bad = append(bad, r.bad...)
+		if r.maxSteps > maxSteps {
+			maxSteps = r.maxSteps
+		}
+		total += r.n
+	}
+	sort.Slice(bad, func(i, j int) bool { return bad[i] < bad[j] })
+	unexpected, foundKnown := 0, 0
+	for _, b := range bad {
+		if known[b] {
+			foundKnown++
+		} else {
+			unexpected++
+		}
+	}
+	b, _ := json.Marshal(map[string]any{"mode": mode, "starts_checked": total, "bad_starts": bad, "known_found": foundKnown, "unexpected_bad": unexpected, "max_steps_good": maxSteps})
+	os.WriteFile(filepath.Join(dir, "orbit.json"), b, 0o644)
 }
 
 func c19TableFromJSON(b []byte, t *c19Table) {
